@@ -419,9 +419,10 @@ void runHostile(const Plan& p)
 		Spec* s = pe.spec;
 		if (!s || s->handlerCalls == 0)
 			continue;
-		if (pe.sentAll)
+		if (pe.sentAll && pe.stallMs < 4000)
 		{
-			// a complete well-formed request: the application must have seen exactly what was sent
+			// a complete well-formed request (a peer that stalls beyond the library's 5-10 s waits is treated like one that
+			// stopped sending: the application may then see the part that had arrived): the application must have seen exactly what was sent
 			if (s->oMethod != s->method)
 				sim::fail("handler_mismatch", "method", "well-formed request: sent method %s, handler saw %s", s->method.c_str(), s->oMethod.c_str());
 			if (s->oPath != s->pathDecoded)
